@@ -335,11 +335,10 @@ func startwithFunc(arg1, arg2 query) func(query, iterator) interface{} {
 		case string:
 			m = typ
 		case query:
-			node := typ.Select(t)
-			if node == nil {
-				return false
+			// an empty node-set converts to the empty string
+			if node := typ.Select(t); node != nil {
+				m = node.Value()
 			}
-			m = node.Value()
 		default:
 			panic(errors.New("starts-with() function argument type must be string"))
 		}
@@ -362,11 +361,10 @@ func endwithFunc(arg1, arg2 query) func(query, iterator) interface{} {
 		case string:
 			m = typ
 		case query:
-			node := typ.Select(t)
-			if node == nil {
-				return false
+			// an empty node-set converts to the empty string
+			if node := typ.Select(t); node != nil {
+				m = node.Value()
 			}
-			m = node.Value()
 		default:
 			panic(errors.New("ends-with() function argument type must be string"))
 		}
@@ -389,11 +387,10 @@ func containsFunc(arg1, arg2 query) func(query, iterator) interface{} {
 		case string:
 			m = typ
 		case query:
-			node := typ.Select(t)
-			if node == nil {
-				return false
+			// an empty node-set converts to the empty string
+			if node := typ.Select(t); node != nil {
+				m = node.Value()
 			}
-			m = node.Value()
 		default:
 			panic(errors.New("contains() function argument type must be string"))
 		}
